@@ -44,7 +44,7 @@ func TestMain(m *testing.M) {
 }
 
 type stats struct {
-	lookups, nonEmpty, mapForm, reorgs, toggles, emptiedAndRepaid int
+	lookups, nonEmpty, mapForm, reorgs, toggles, emptiedAndRepaid, restored int
 }
 
 // addrOf builds the address object for an address-shaped script with the reference decoder's view.
@@ -186,6 +186,25 @@ func run(c Case, st *stats) (*sim.Sim, error) {
 				enable()
 				st.toggles++
 			}
+		case "wallet_restart":
+			// node shutdown and start on the same block: the index is written to disk (SaveBalances) and read back
+			// (LoadBalances; rebuilt from the unspent set if that fails - what client/main.go does)
+			if walletOn {
+				common.Last.Mutex.Lock()
+				common.Last.Block = s.Node.Ch.LastBlock()
+				common.Last.Mutex.Unlock()
+				common.CFG.AllBalances.SaveBalances = true
+				wallet.LAST_SAVED_FNAME = ""
+				if err := wallet.SaveBalances(); err == nil {
+					wallet.Disable()
+					if err := wallet.LoadBalances(); err != nil {
+						wallet.LoadBalancesFromUtxo()
+					} else {
+						st.restored++
+					}
+					walletOn = common.Get(&common.WalletON)
+				}
+			}
 		}
 		return check()
 	}}
@@ -239,7 +258,7 @@ func genCase(t *rapid.T, p sim.Profile) Case {
 	var ops []sim.Op
 	for _, op := range c.Sim.Ops {
 		if rapid.IntRange(0, 14).Draw(t, "toggle") == 0 {
-			ops = append(ops, sim.Op{Kind: rapid.SampledFrom([]string{"wallet_off", "wallet_on", "wallet_on"}).Draw(t, "which")})
+			ops = append(ops, sim.Op{Kind: rapid.SampledFrom([]string{"wallet_off", "wallet_on", "wallet_on", "wallet_restart", "wallet_restart"}).Draw(t, "which")})
 		}
 		ops = append(ops, op)
 	}
@@ -301,6 +320,9 @@ func TestBalances(t *testing.T) {
 		}
 		if st.toggles > 1 {
 			r.Class("index_toggled")
+		}
+		if st.restored > 0 {
+			r.Class("index_saved_and_restored")
 		}
 		pbt.AddExtra("address_lookups", int64(st.lookups))
 		pbt.AddExtra("non_empty_lookups", int64(st.nonEmpty))
